@@ -90,6 +90,10 @@ def run(R):
     R.rule("C01-R19", "SUM over no solutions is 0: in both aggregators a floating-point `Iterator::sum` (which yields -0.0 for an empty "
                       "iterator) is never formatted as it is - it is folded from +0.0, adjusted by arithmetic, or guarded by a non-emptiness test; "
                       "otherwise an empty group prints \"-0\"")
+    R.rule("C01-R20", "a dataset clause replaces the dataset: when a query has FROM or FROM NAMED, its default graph is the merge of the FROM graphs "
+                      "and its named graphs are the FROM NAMED graphs - both possibly empty. In build_dataset_view the two lists handed to "
+                      "DatasetView::new derive from `query.from` and `query.from_named` only (never from the stored catalog), and the stored "
+                      "dataset (`from_database`) is used only when both clauses are absent")
     R.rule("C01-R14", "ORDER BY comparators (top level and subquery) agree and are lexicographic over ALL keys: each walks every sort key in "
                       "order, compares numerically when both values parse as numbers and lexically otherwise, reverses exactly under "
                       "DESC, returns at the first key that is not Equal and Equal only after the last key")
@@ -114,6 +118,7 @@ def run(R):
     r17(R)
     r18(R)
     r19(R)
+    r20(R)
     r14(R)
     r15(R)
 
@@ -1295,6 +1300,33 @@ def r19(R):
                      where=x.where(c.ln), detail=None if (not direct or guarded) else "Iterator::sum::<f64>() of an empty iterator is -0.0: SUM over a group "
                      "without numeric values prints \"-0\"")
     R.floor("C01-R19", "floating-point accumulations in the two aggregators (sum / fold)", nagg, 4)
+
+
+def r20(R):
+    prog = R.prog
+    b = R.body("C01-R20", "execute_query::build_dataset_view", crate="kolibrie")
+    if b is None:
+        return
+    news = [c for c in b.calls() if c.name() == "new" and "DatasetView" in (c.pretty or c.key or "") and len(c.args) >= 2]
+    R.ob("C01-R20", "constructs", "build_dataset_view builds the replacement dataset with DatasetView::new (found %d)" % len(news), len(news) >= 1, where=b.where())
+    catalog = ("named_graphs", "graphs", "from_database", "all_quads", "graph_exists")
+    for c in news:
+        for idx, fld, what in ((0, "from", "default graphs"), (1, "from_named", "named graphs")):
+            pl = F.op_place(c.args[idx])
+            d = P.derives(prog, b, pl["l"]) if pl is not None else set()
+            from_clause = any(t[0] == "field" and t[1].endswith("." + fld) for t in d)
+            from_store = sorted(t[1] for t in d if t[0] == "call" and t[1] in catalog)
+            other_clause = any(t[0] == "field" and t[1].endswith("." + ("from_named" if fld == "from" else "from")) for t in d)
+            ok = from_clause and not from_store and not other_clause
+            R.ob("C01-R20", "replaced:" + fld, "the %s of the replacement dataset come from `query.%s` only" % (what, fld), ok, where=b.where(c.ln),
+                 detail=None if ok else ("they also derive from the stored catalog (%s): a query with FROM but no FROM NAMED must see no named graph at all" % from_store
+                                         if from_store else "they do not derive from query.%s alone" % fld))
+    fdb = [c for c in b.calls() if c.name() == "from_database"]
+    for c in fdb:
+        conds = G.conditions(b, c.bb)
+        empties = [cd for cd in conds if cd.get("kind") == "call" and cd["call"].name() == "is_empty" and cd.get("truth") is True]
+        R.ob("C01-R20", "stored-only-without-clauses", "the stored dataset is used only when both FROM and FROM NAMED are absent (emptiness tests on the path: %d)" % len(empties),
+             len(empties) >= 2, where=b.where(c.ln))
 
 
 def r16(R):
